@@ -65,6 +65,7 @@ type VC struct {
 	entry    *Heap
 	recvStruct *StructVal
 	topParams  map[string]TV
+	globals    Term
 	freshRefs  map[string]bool
 }
 
@@ -138,6 +139,10 @@ func (vc *VC) oblige(st *State, kind, name, src string, goal Term) {
 		return
 	}
 	if goal.S == "true" {
+		return
+	}
+	if kind == "safe" && vc.contract != nil && vc.contract.NoSafety {
+		vc.note("run-time panic freedom is not claimed for " + vc.topKey + " (calls unspecified externals)")
 		return
 	}
 	full := vc.topKey + "#" + name
@@ -302,7 +307,7 @@ func (vc *VC) valueOf(fr *frame, v ssa.Value) Value {
 	case *ssa.Global:
 		el := FromGo(x.Type().(*types.Pointer).Elem())
 		name := "global:" + x.Pkg.Pkg.Path() + "." + x.Name()
-		return PtrVal{Loc: Loc{name, []Term{Zero}}, Elem: el}
+		return PtrVal{Loc: Loc{name, []Term{vc.globalsRef()}}, Elem: el}
 	case *ssa.Builtin:
 		return x
 	}
@@ -762,4 +767,14 @@ func (vc *VC) execValue(st *State, tv TV) Value {
 		return vc.wrap(v, tv.T)
 	}
 	return tv.V
+}
+
+
+// globalsRef is the (allocated, non-nil) pseudo object whose "fields" are the package-level variables.
+func (vc *VC) globalsRef() Term {
+	if vc.globals.IsZero() {
+		vc.globals = vc.script.Declare("$globals", SInt)
+		vc.script.Assume(And(Gt(vc.globals, Zero), Select(vc.base0.alloc, vc.globals)))
+	}
+	return vc.globals
 }
